@@ -17,6 +17,7 @@ type thread struct {
 	wake    chan struct{}
 	done    bool
 	blocked *WaitGroup // waiting for this group to reach zero
+	lock    any        // waiting for this Mutex / RWMutex to become available
 }
 
 // decision is one scheduling point at which more than one thread was enabled. The enabled
@@ -49,12 +50,12 @@ func Active() bool { return active != nil }
 func (r *run) enabledList() (list []int, running bool) {
 	list = r.buf[:0]
 	defer func() { r.buf = list }()
-	if r.cur != nil && !r.cur.done && r.cur.blocked == nil {
+	if r.cur != nil && !r.cur.done && r.cur.blocked == nil && r.cur.lock == nil {
 		list = append(list, r.cur.id)
 		running = true
 	}
 	for _, t := range r.threads {
-		if t != r.cur && !t.done && t.blocked == nil {
+		if t != r.cur && !t.done && t.blocked == nil && t.lock == nil {
 			list = append(list, t.id)
 		}
 	}
@@ -86,6 +87,13 @@ func (r *run) schedule(site int) (chosen *thread) {
 			}
 		}
 		r.decisions = append(r.decisions, decision{n: uint8(min(len(enabled), 255)), chosen: uint8(choice), running: running})
+		if len(r.decisions) > MaxDecisions && r.failure == "" {
+			// an execution that never ends (a wait the scheduler cannot see): end the run instead of
+			// recording decisions until memory is exhausted; the threads of this run are abandoned
+			r.failure = fmt.Sprintf("livelock: more than %d scheduling decisions in one execution", MaxDecisions)
+			close(r.doneCh)
+			select {}
+		}
 	}
 	next := r.threads[enabled[choice]]
 	prev := r.cur
@@ -103,6 +111,9 @@ func (r *run) schedule(site int) (chosen *thread) {
 // FinePoints enables the statement-level points (site FineSite) that instrumenters put into
 // code whose coarse structure already has points of its own.
 var FinePoints bool
+
+// MaxDecisions bounds the length of one execution (see schedule).
+var MaxDecisions = 50_000_000
 
 const FineSite = -30
 
@@ -202,20 +213,68 @@ func (w *WaitGroup) Wait() {
 	}
 }
 
-// Mutex / Once shims so that instrumented code using them keeps compiling; under the cooperative
-// scheduler a lock can only be contended across a scheduling point.
+// Mutex / RWMutex / Once shims. Waiting for a lock is visible to the scheduler: a thread that
+// cannot take the lock is blocked (not enabled) until the lock is released, so that lock waits
+// neither spin nor count as choices; taking a lock is a scheduling point.
 type Mutex struct{ held bool }
 
-func (m *Mutex) Lock() {
-	for m.held {
-		Point(-4)
-		if active == nil {
-			break
+// wait blocks the running thread on lock l until avail() holds.
+func wait(l any, site int, avail func() bool) {
+	r := active
+	if r == nil {
+		return
+	}
+	Point(site)
+	for !avail() {
+		me := r.cur
+		me.lock = l
+		if next := r.schedule(site); next != nil && next != me {
+			<-me.wake
+		} else if next == nil {
+			select {} // deadlock: the run has been ended
 		}
 	}
+}
+
+func release(l any) {
+	if r := active; r != nil {
+		for _, t := range r.threads {
+			if t.lock == l {
+				t.lock = nil
+			}
+		}
+	}
+}
+
+func (m *Mutex) Lock() {
+	wait(m, -4, func() bool { return !m.held })
 	m.held = true
 }
-func (m *Mutex) Unlock() { m.held = false }
+func (m *Mutex) Unlock() { m.held = false; release(m) }
+func (m *Mutex) TryLock() bool {
+	Point(-4)
+	if m.held {
+		return false
+	}
+	m.held = true
+	return true
+}
+
+type RWMutex struct {
+	w bool
+	r int
+}
+
+func (m *RWMutex) Lock() {
+	wait(m, -5, func() bool { return !m.w && m.r == 0 })
+	m.w = true
+}
+func (m *RWMutex) Unlock() { m.w = false; release(m) }
+func (m *RWMutex) RLock() {
+	wait(m, -5, func() bool { return !m.w })
+	m.r++
+}
+func (m *RWMutex) RUnlock() { m.r--; release(m) }
 
 type Once struct{ done bool }
 
@@ -352,7 +411,8 @@ func (e *Explorer) explore(prefix []int, depth int) {
 }
 
 func (e *Explorer) stop() bool {
-	return (e.MaxSchedules > 0 && e.Stats.Schedules >= e.MaxSchedules) || (!e.Deadline.IsZero() && time.Now().After(e.Deadline))
+	// five failing schedules are enough to report; a failing run may have abandoned its threads
+	return len(e.Stats.Failures) >= 5 || (e.MaxSchedules > 0 && e.Stats.Schedules >= e.MaxSchedules) || (!e.Deadline.IsZero() && time.Now().After(e.Deadline))
 }
 
 func (e *Explorer) account(x *Execution) {
